@@ -405,3 +405,81 @@ func runC19_9(c *core.Ctx) {
 		c.Undecided("gnet", "connWithCallback consumers", 0, "no function takes a *connWithCallback out of an interface value")
 	}
 }
+
+func init() {
+	register(&core.Rule{ID: "C14.9", Prop: "C14", MinSites: 1,
+		Desc: "the registry holds live connections only: in every function of package gnet, once a conn was handed to addConn it is neither released (conn.release) nor is its descriptor closed before delConn took it out again – a failed poller registration that releases a conn already entered leaves a dead entry that lookup, count and iteration keep reporting and that closeConns can never remove",
+		Run:  runC14_9})
+}
+
+func runC14_9(c *core.Ctx) {
+	v := vocabOf(c)
+	if v == nil {
+		return
+	}
+	sites := 0
+	for _, f := range v.funcs {
+		var adds []*ast.CallExpr
+		for _, call := range callsIn(f.Decl.Body, false) {
+			if flow.IsCall(f.Info, call, v.addConn) && len(call.Args) >= 1 {
+				adds = append(adds, call)
+			}
+		}
+		for k, add := range adds {
+			sites++
+			who := flow.ObjOf(f.Info, add.Args[0])
+			construct := "addConn(" + exprStr(add.Args[0]) + ") #" + itoa(k+1) + " stays registered while the conn lives"
+			if who == nil {
+				c.Undecided(f.Name, construct, add.Pos(), "the registered connection is not a variable")
+				continue
+			}
+			const (
+				sOut = iota
+				sIn
+			)
+			var bad token.Pos
+			var what string
+			record := false
+			au := &flow.Auto{Start: sOut}
+			au.Node = func(b *flow.Block, i int, n ast.Node, st int) int {
+				flow.Events(n, func(x ast.Node) {
+					call, ok := x.(*ast.CallExpr)
+					if !ok {
+						return
+					}
+					switch {
+					case call == add:
+						st = sIn
+					case flow.IsCall(f.Info, call, v.delConn) && len(call.Args) >= 1 && flow.ObjOf(f.Info, call.Args[0]) == who:
+						st = sOut
+					case st == sIn && flow.IsCall(f.Info, call, v.releaseFn) && flow.Recv(call) != nil && flow.ObjOf(f.Info, flow.Recv(call)) == who:
+						if record && bad == token.NoPos {
+							bad, what = call.Pos(), exprStr(add.Args[0])+".release()"
+						}
+					case st == sIn && flow.IsPkgFunc(f.Info, call, unixPkg, "Close") && len(call.Args) == 1:
+						if sel, ok := ast.Unparen(call.Args[0]).(*ast.SelectorExpr); ok && flow.FieldOf(f.Info, sel) == v.fdF && flow.ObjOf(f.Info, sel.X) == who {
+							if record && bad == token.NoPos {
+								bad, what = call.Pos(), "unix.Close("+exprStr(call.Args[0])+")"
+							}
+						}
+					}
+				})
+				return st
+			}
+			sol := f.Graph().Run(au)
+			record = true
+			sol.Walk(func(b *flow.Block, i int, n ast.Node, before uint64) {
+				for _, st := range flow.States(before) {
+					au.Node(b, i, n, st)
+				}
+			})
+			record = false
+			c.Check(bad == token.NoPos, f.Name, construct, add.Pos(), "no release or close of the descriptor is reachable between addConn and delConn",
+				what+" is reachable after the connection was entered into the registry and before delConn removed it: the registry keeps a dead entry – lookup returns a released conn, the count exceeds the live connections, iteration visits it, closeConns cannot remove it, and a new connection on the same descriptor number is counted on top of it")
+			if bad != token.NoPos {
+				_ = bad
+			}
+		}
+	}
+	_ = sites
+}
